@@ -102,10 +102,22 @@ def merge_shape(ctx, res, rule):
                 lid = T.local_of(x)
                 if lid is not None and lid in lets and lets[lid].get("pty") == "usize":
                     cursors.add(lid)
+    iters = set()
     if not cursors:
-        # a recognised total idiom instead of a cursor merge?
-        res.cannot(rule, fn, "cursor", "no cursor into the pending list found (merge idiom not recognised)", loc)
-        return
+        # the same merge written with a consuming iterator: `let mut it = pending.into_iter().peekable()`, advanced with
+        # `it.next_if(..)` / `it.next()` and drained with `merged.extend(it.map(..))`
+        for lid, s_ in lets.items():
+            e = T.peel(s_["init"]) if s_.get("init") is not None else {}
+            chain = []
+            while e.get("k") == "mcall" and e["name"] in ("into_iter", "iter", "peekable") and not e["args"]:
+                chain.append(e["name"])
+                e = T.peel_ref(e["recv"])
+            if chain and T.local_of(e) == pend_final:
+                iters.add(lid)
+        uses = [n for n in T.nodes(b["tree"], "path") if T.local_of(n) == pend_final]
+        if len(iters) != 1 or len(uses) != 1:
+            res.cannot(rule, fn, "cursor", "no cursor into the pending list found (merge idiom not recognised)", loc)
+            return
     # every advance of the cursor inside the ready loop sits in an inner loop
     adv = 0
     for n, parents in T.walk(loop["body"]):
@@ -118,8 +130,20 @@ def merge_shape(ctx, res, rule):
                 res.add(Finding(rule, fn, "advance-in-inner-loop:" + T.render(n),
                                 "the pending cursor is advanced at most once per ready range (no inner loop): with two pending ranges before "
                                 "a ready one the listing order becomes Pending, Ready, Pending", loc=T.loc(n)))
-        if n.get("k") == "assign" and T.local_of(n["l"]) in cursors:
+        if n.get("k") == "assign" and T.local_of(n["l"]) in (cursors | iters):
             res.add(Finding(rule, fn, "cursor-reassigned:" + T.render(n), "the pending cursor is reassigned inside the merge loop", loc=T.loc(n)))
+        if n.get("k") == "mcall" and T.local_of(T.peel_ref(n["recv"])) in iters:
+            if n["name"] in ("next", "next_if", "next_if_eq"):
+                adv += 1
+                inner = [p for p in parents if p.get("k") in ("loop", "for")]
+                if inner:
+                    res.holds(rule, fn, "advance-in-inner-loop:" + T.render(n)[:60])
+                else:
+                    res.add(Finding(rule, fn, "advance-in-inner-loop:" + T.render(n)[:60],
+                                    "the pending iterator is advanced at most once per ready range (no inner loop): with two pending ranges before "
+                                    "a ready one the listing order becomes Pending, Ready, Pending", loc=T.loc(n)))
+            elif n["name"] not in ("peek",):
+                res.add(Finding(rule, fn, "iterator-use:" + T.render(n)[:60], "the pending iterator is consumed by `%s` inside the merge loop" % n["name"], loc=T.loc(n)))
     res.floor(rule, "advances of the pending cursor inside the ready loop", adv, 1)
     # pushes into the merged list
     merged = [lid for lid, s in lets.items() if s.get("init") is not None and T.render(s["init"]) == "std::vec::Vec::new()" and "bool" in s.get("pty", "")]
@@ -162,6 +186,20 @@ def merge_shape(ctx, res, rule):
         if n.get("k") == "mcall" and n["name"] == "extend" and T.local_of(T.peel_ref(n["recv"])) == merged:
             inside = any(p is loop for p in parents)
             r = T.render(n["args"][0])
+            if not inside and iters and not [p for p in parents if p.get("k") == "if"]:
+                a0 = T.peel(n["args"][0])
+                rootl = a0
+                okchain = True
+                tags = []
+                while rootl.get("k") == "mcall":
+                    if rootl["name"] == "map" and len(rootl["args"]) == 1 and T.peel(rootl["args"][0]).get("k") == "closure":
+                        cb = T.peel(T.peel(rootl["args"][0])["body"])
+                        tags.append(T.lit_value(cb["es"][1]) if cb.get("k") == "tuple" and len(cb["es"]) == 2 else None)
+                    elif rootl["name"] not in ("by_ref",):
+                        okchain = False       # filter / skip / take .. would drop pending ranges
+                    rootl = T.peel_ref(rootl["recv"])
+                if okchain and T.local_of(rootl) in iters and tags == [False]:
+                    tail_ok = True
             if not inside and any(("[%s.." % lets[c]["pat"]["name"]) in r for c in cursors) and "false" in r:
                 # unconditional, or guarded only by "something is left"
                 guards = [p for p in parents if p.get("k") == "if"]
@@ -199,13 +237,39 @@ def squash_rule(ctx, res, rule):
     cur_name = None
     for n in T.nodes(inner["body"], "assign_op"):
         cur_name = T.render(n["l"])
+    if pend_name is None and cur_name is None:
+        # iterator form: the pending list is consumed through `let mut it = pending.into_iter().peekable()`
+        for n in T.nodes(inner, "mcall"):
+            if n["name"] in ("next_if", "next", "peek") and T.local_of(T.peel_ref(n["recv"])) is not None:
+                pend_name = T.render(T.peel_ref(n["recv"]))
     merged_name = None
     for n in T.nodes(loop["body"], "mcall"):
         if n["name"] == "push":
             merged_name = T.render(T.peel_ref(n["recv"]))
-    if not (pend_name in lets and cur_name in lets and merged_name in lets):
+    if not (pend_name in lets and (cur_name is None or cur_name in lets) and merged_name in lets):
         res.cannot(rule, fn, "locals", "cannot identify pending list / cursor / merged list", loc)
         return
+
+    def _next_if(I_, a, n, env):
+        v = a[0]
+        if not isinstance(v, A.VecV) or v.base is not None:
+            raise A.Cannot("next_if on an unknown iterator")
+        if v.items and I_.truth(I_.apply(a[1], [v.items[0]])):
+            return A.Variant("Some", [v.items.pop(0)])
+        return A.Variant("None")
+
+    def _next(I_, a, n, env):
+        v = a[0]
+        if not isinstance(v, A.VecV) or v.base is not None:
+            raise A.Cannot("next on an unknown iterator")
+        return A.Variant("Some", [v.items.pop(0)]) if v.items else A.Variant("None")
+
+    def _peek(I_, a, n, env):
+        v = a[0]
+        if not isinstance(v, A.VecV) or v.base is not None:
+            raise A.Cannot("peek on an unknown iterator")
+        return A.Variant("Some", [v.items[0]]) if v.items else A.Variant("None")
+    iter_models = {"std::iter::Peekable::next_if": _next_if, "std::iter::Peekable::peek": _peek, "std::iter::Iterator::next": _next}
     rows = bad = 0
     first_bad = None
     for rs, re_, ps, pe in itertools.product(range(5), repeat=4):
@@ -214,13 +278,18 @@ def squash_rule(ctx, res, rule):
         rows += 1
         merged = A.VecV([])
         pend = A.VecV([A.Tuple([A.Struct("Range", [("start", A.Lit(ps)), ("end", A.Lit(pe))]), A.Sym("pidx")])])
-        I = A.Interp(P, models={"std::vec::Vec::len": lambda I_, a, n, env: A.Lit(len(a[0].items)) if isinstance(a[0], A.VecV) and a[0].base is None else A.Sym("len")})
+        I = A.Interp(P, models=dict(iter_models, **{"std::vec::Vec::len": lambda I_, a, n, env: A.Lit(len(a[0].items)) if isinstance(a[0], A.VecV) and a[0].base is None else A.Sym("len")}))
         I.lazy_locals = True
 
         def run(J):
-            env = {lets[pend_name]: pend, lets[cur_name]: A.Lit(0), lets[merged_name]: merged}
+            env = {lets[pend_name]: pend, lets[merged_name]: merged}
+            if cur_name is not None:
+                env[lets[cur_name]] = A.Lit(0)
             if not J.match_pat(loop["pat"], A.Tuple([A.Struct("Range", [("start", A.Lit(rs)), ("end", A.Lit(re_))]), A.Sym("ridx")]), env):
                 raise A.Cannot("loop pattern")
+            # one iteration of the inner loop: its condition (which may consume, as in `while let Some(p) = it.next_if(..)`), then its body
+            if not J.cond(inner["while_cond"], env):
+                raise A._Break(None)
             return J.ev(inner["body"], env)
         try:
             outs = I.explore(run)
